@@ -488,7 +488,8 @@ class Interp:
         return self.ifunc_from_classattr(k, name, attr)
 
     def ifunc_from_classattr(self, k, name, attr, which="get"):
-        module = sys.modules.get(k.__module__)
+        # the ABCs of collections.abc are defined in _collections_abc.py (which renames itself to "collections.abc")
+        module = sys.modules.get("_collections_abc" if k.__module__ == "collections.abc" else k.__module__)
         if module is None:
             return None
         try:
